@@ -101,7 +101,8 @@ package handler
 //@   ghost at entry: armT = false
 //@   ghost at entry: r0 = r
 //@   ghost at before ErrorCtx#0: armT = true
-//@   call go#0: assert reqCtx[r] == ctx && ctxParent[ctx] == reqCtx[r0] && ctxTimeout[ctx] == h.dt && tw.w == w && !tw.timedOut
+//@   ghost at after WithContext#0: r1 = ret
+//@   call go#0: assert reqCtx[r1] == ctx && ctxParent[ctx] == reqCtx[r0] && ctxTimeout[ctx] == h.dt && tw.w == w && !tw.timedOut
 //@   call ServeHTTP#0: assert arg_w == w && arg_r == r0
 //@   ensures implies(armT, tw.timedOut)
 //@   loop 0: invariant held(tw.mu)
